@@ -567,6 +567,70 @@ def _fixed_zone_histories(depth):
     return acc
 
 
+def _pattern_lookup_histories(depth):
+    """pattern creation through a cached (read-only) culture goes through the format-info cache and its per-type pattern
+    cache: whatever sibling pattern texts were created before, a created pattern must behave like one created through a
+    fresh, uncached culture object"""
+    acc = Acc()
+    try:
+        from pyoda_time._compatibility._culture_info import CultureInfo
+        from pyoda_time.globalization._pyoda_format_info import _PyodaFormatInfo
+        from pyoda_time.text import LocalDatePattern, LocalTimePattern
+        from pyoda_time import LocalTime
+    except Exception:  # noqa: BLE001
+        acc.degrade("culture / pattern internals not importable")
+        return acc
+    d, t = LocalDate(2024, 3, 7), LocalTime(13, 45, 7)
+    alpha = [("date", "d"), ("date", " d"), ("date", "d "), ("date", "D"), ("date", "dd"), ("date", "yyyy-MM-dd"), ("date", "yyyy-MM-dd "),
+             ("time", "HH:mm"), ("time", "HH:mm "), ("time", " HH:mm"), ("time", "t"), ("time", "T")]
+
+    def create(kind, text, culture):
+        return (LocalDatePattern if kind == "date" else LocalTimePattern).create(text, culture)
+
+    def observe(kind, pat):
+        v = d if kind == "date" else t
+        txt = pat.format(v)
+        r = pat.parse(txt)
+        return (txt, r.success, repr(r.value) if r.success else None, pat.pattern_text)
+    fresh = {}
+    for kind, text in alpha:
+        try:
+            fresh[(kind, text)] = observe(kind, create(kind, text, CultureInfo("en-US")))
+        except Exception as e:  # noqa: BLE001
+            fresh[(kind, text)] = ("raises", type(e).__name__)
+
+    def clear():
+        try:
+            _PyodaFormatInfo._PyodaFormatInfo__CACHE.clear()
+            return True
+        except Exception:  # noqa: BLE001
+            return False
+    if not clear():
+        acc.degrade("format-info cache not clearable: pattern lookup histories run on top of earlier lookups")
+    n = 0
+    for dlen in range(1, depth + 1):
+        for hist in itertools.product(alpha, repeat=dlen):
+            clear()
+            culture = CultureInfo.get_culture_info("en-US")
+            n += 1
+            acc.count(evaluations=1)
+            for i, (kind, text) in enumerate(hist):
+                acc.count(transitions=1)
+                try:
+                    got = observe(kind, create(kind, text, culture))
+                except Exception as e:  # noqa: BLE001
+                    got = ("raises", type(e).__name__)
+                if got != fresh[(kind, text)]:
+                    acc.violation("C13/pattern-lookup/history-dependent/%s" % kind,
+                                  "after creating patterns %r through the cached culture, pattern %r behaves as %r; created through a fresh culture it behaves as %r" % (hist[:i], text, got, fresh[(kind, text)]),
+                                  {"kind": "pattern-lookup", "history": [list(h) for h in hist[:i + 1]]})
+                    break
+    acc.count(states=n, nontrivial=n)
+    acc.outcome("pattern-lookup")
+    acc.sample({"pattern_lookup_alphabet": alpha, "depth": depth})
+    return acc
+
+
 def _calendar_routes():
     routes = []
     for cid in CalendarSystem.ids:
@@ -815,8 +879,20 @@ def H_cache():
         exp = ((("value-of", "a"), ("value-of", "b"), ("value-of", "c")), (("value-of", "c"), ("value-of", "a")))
         cache = c["cache"]
         coherent = cache.count() <= 2 and len(set(cache.keys())) == len(cache.keys())
-        ok = (tuple(s.results) == exp, coherent)
-        return ok, (None if all(ok) else "concurrent get_or_add: results %r, count %d, keys %r" % (s.results, cache.count(), cache.keys()))
+        # after the race the cache must keep working sequentially: fill it with exactly `size` (and size+1) new keys, then
+        # ask for every earlier key again (a duplicate left in the eviction queue only bites at this point)
+        tail_ok = True
+        try:
+            for k in ("x1", "x2", "c", "a", "b", "x3", "x4", "x5", "c", "a"):
+                if cache.get_or_add(k) != ("value-of", k):
+                    tail_ok = False
+            tail_ok = tail_ok and cache.count() <= 2
+        except Exception as e:  # noqa: BLE001
+            if exc_origin(e) == "harness":
+                raise
+            return ("tail-error", type(e).__name__), "after a concurrent get_or_add the cache fails in later sequential use: %r" % (e,)
+        ok = (tuple(s.results) == exp, coherent, tail_ok)
+        return ok, (None if all(ok) else "concurrent get_or_add: results %r, count %d, keys %r, later sequential use ok=%s" % (s.results, cache.count(), cache.keys(), tail_ok))
     return make, check, ("_cache.py",)
 
 
@@ -1180,6 +1256,7 @@ def run(ctx):
     ctx.merge_part("hist_provider", _provider_histories(3 if tier == "quick" else 4))
     ctx.merge_part("hist_provider_custom_source", _provider_histories_custom(3 if tier == "quick" else 4))
     ctx.merge_part("hist_fixed_zones", _fixed_zone_histories(2 if tier == "quick" else 3))
+    ctx.merge_part("hist_pattern_lookup", _pattern_lookup_histories(2 if tier == "quick" else 3))
     acc = Acc()
     _calendar_histories(acc)
     ctx.merge_part("hist_calendars", acc)
